@@ -539,10 +539,10 @@ mutual
       have viaGroup : ∀ (s0 : St) (b : Bool), HoldsG u s0.root → allG P s0.root →
           (do
             let s ← mergeGroup now tombs s0 (path ++ [ou]) (.group ou oc ot ocs) b
-            mergeSubgroups now tombs s path inDel rest) = .ok s' → allG P s'.root := by
+            mergeSubgroups now tombs s (refreshPath s.root path) inDel rest) = .ok s' → allG P s'.root := by
         intro s0 b hH0 hT0 hk
         obtain ⟨s1, hs1, hk⟩ := except_bind_ok hk
-        exact mergeSubgroups_allG P hP u now tombs rest s1 s' path inDel hS.2
+        exact mergeSubgroups_allG P hP u now tombs rest s1 s' _ inDel hS.2
           (holdsG_group u now tombs _ s0 s1 _ b hH0 hs1)
           (mergeGroup_allG P hP u now tombs (.group ou oc ot ocs) s0 s1 _ b hog hH0 hT0 hs1) hk
       split at h
@@ -792,7 +792,7 @@ mutual
       have viaGroup : ∀ (s0 : St) (b : Bool), HoldsG c.u s0.root → allG c.P0 s0.root → (allG c.P1 s.root → allG c.P1 s0.root) →
           (do
             let s ← mergeGroup c.now tombs s0 (path ++ [ou]) (.group ou oc ot ocs) b
-            mergeSubgroups c.now tombs s path inDel rest) = .ok s' → allG c.P1 s'.root := by
+            mergeSubgroups c.now tombs s (refreshPath s.root path) inDel rest) = .ok s' → allG c.P1 s'.root := by
         intro s0 b hH0 hT0 h10 hk
         obtain ⟨s1, hs1, hk⟩ := except_bind_ok hk
         have hH1 := holdsG_group c.u c.now tombs _ s0 s1 _ b hH0 hs1
@@ -803,11 +803,11 @@ mutual
             exact Or.inr hv
         rcases hvis with hv0 | hv0 | hv0
         · have := mergeGroup_allG c.P1 c.p1_locFree c.u c.now tombs _ s0 s1 _ b (c.src_ok1 _ hog) hH0 hv0 hs1
-          exact mergeSubgroups_allG c.P1 c.p1_locFree c.u c.now tombs rest s1 s' path inDel (c.srcL_ok1 _ hS.2) hH1 this hk
+          exact mergeSubgroups_allG c.P1 c.p1_locFree c.u c.now tombs rest s1 s' _ inDel (c.srcL_ok1 _ hS.2) hH1 this hk
         · have := mergeGroup_lwwG c tombs (.group ou oc ot ocs) s0 s1 _ b hog hH0 hT0 hs1 (Or.inr hv0)
-          exact mergeSubgroups_allG c.P1 c.p1_locFree c.u c.now tombs rest s1 s' path inDel (c.srcL_ok1 _ hS.2) hH1 this hk
+          exact mergeSubgroups_allG c.P1 c.p1_locFree c.u c.now tombs rest s1 s' _ inDel (c.srcL_ok1 _ hS.2) hH1 this hk
         · have := mergeGroup_allG c.P0 c.p0_locFree c.u c.now tombs _ s0 s1 _ b (c.src_ok0 _ hog) hH0 hT0 hs1
-          exact mergeSubgroups_lwwG c tombs rest s1 s' path inDel hS.2 hH1 this hk (Or.inr hv0)
+          exact mergeSubgroups_lwwG c tombs rest s1 s' _ inDel hS.2 hH1 this hk (Or.inr hv0)
       have addG : ∀ (P : GP), SrcOkG P c.u c.now ou oc ot → findLoc s.root ou = none → allG P s.root →
           allG P (updatePath s.root path (fun p => p.setChildren (p.children ++ [Node.group ou oc ot []]))) := by
         intro P hok hloc hTP
@@ -1089,17 +1089,16 @@ theorem getPath_groupIds : ∀ (p : List Nat) (root : Node) (u c : Nat) (t : Tim
         simp only at hg
         exact up _ (memL _ x (find_first hc).1 _ (ih x u c t ch hg))
 
-/-- **last writer wins for groups, for the whole merge**: a group below the root that the destination and the source both hold
-    has, in the result of the merge, the destination's own data (name, notes, icon, settings) unless the source's modification
-    time is strictly later, in which case it has the source's. -/
-theorem merge_group_lww (now : Int) (dst src d' : Db) (evs : List Event) (hI : Inv dst.root)
+/-- the same with the state the group is left in -/
+theorem merge_group_lww_state (now : Int) (dst src d' : Db) (evs : List Event) (hI : Inv dst.root)
     (hfd : dst.root.uuid ∉ uuidsL dst.root.children) (hIs : Inv src.root) (hfs : src.root.uuid ∉ uuidsL src.root.children)
     (h : merge now dst src = .ok (d', evs))
     (pd ps pr : List Nat) (u dc : Nat) (dt : Times) (dch : List Node) (sc : Nat) (st : Times) (sch : List Node)
     (rc : Nat) (rt : Times) (rch : List Node) (hpd : pd ≠ []) (hps : ps ≠ [])
     (hd : getPath dst.root pd = some (.group u dc dt dch)) (hs : getPath src.root ps = some (.group u sc st sch))
     (hr : getPath d'.root pr = some (.group u rc rt rch)) :
-    rc = if dt.mtime.getD now ≥ st.mtime.getD 0 then dc else sc := by
+    ((rc = dc ∧ rt.mtime = dt.mtime) ∨ (rc = sc ∧ rt.mtime = st.mtime))
+    ∧ rc = (if dt.mtime.getD now ≥ st.mtime.getD 0 then dc else sc) := by
   let c : LwwG := ⟨u, dc, dt.mtime, sc, st.mtime, now⟩
   have hT0 : allG c.P0 dst.root := by
     have := allG_only (fun _ y z => c.Orig y z) dst.root pd u dc dt dch hI hfd hpd hd ⟨rfl, rfl⟩
@@ -1129,4 +1128,21 @@ theorem merge_group_lww (now : Int) (dst src d' : Db) (evs : List Event) (hI : I
   have hT3 := deleteGroups_allG c.P1 now _ s4 nt4 _ s3 tombs hT4 hx
   have := allG_getPath c.P1 pr s3.root _ hT3 hr
   simp only [allG] at this
-  exact (this.1 rfl).2
+  obtain ⟨hst, hc⟩ := this.1 rfl
+  refine ⟨?_, hc⟩
+  rcases hst with ⟨a, b⟩ | ⟨a, b, _⟩
+  · exact Or.inl ⟨a, b⟩
+  · exact Or.inr ⟨a, b⟩
+
+/-- **last writer wins for groups, for the whole merge**: a group below the root that the destination and the source both hold
+    has, in the result of the merge, the destination's own data (name, notes, icon, settings) unless the source's modification
+    time is strictly later, in which case it has the source's. -/
+theorem merge_group_lww (now : Int) (dst src d' : Db) (evs : List Event) (hI : Inv dst.root)
+    (hfd : dst.root.uuid ∉ uuidsL dst.root.children) (hIs : Inv src.root) (hfs : src.root.uuid ∉ uuidsL src.root.children)
+    (h : merge now dst src = .ok (d', evs))
+    (pd ps pr : List Nat) (u dc : Nat) (dt : Times) (dch : List Node) (sc : Nat) (st : Times) (sch : List Node)
+    (rc : Nat) (rt : Times) (rch : List Node) (hpd : pd ≠ []) (hps : ps ≠ [])
+    (hd : getPath dst.root pd = some (.group u dc dt dch)) (hs : getPath src.root ps = some (.group u sc st sch))
+    (hr : getPath d'.root pr = some (.group u rc rt rch)) :
+    rc = if dt.mtime.getD now ≥ st.mtime.getD 0 then dc else sc :=
+  (merge_group_lww_state now dst src d' evs hI hfd hIs hfs h pd ps pr u dc dt dch sc st sch rc rt rch hpd hps hd hs hr).2
